@@ -121,7 +121,13 @@ func c10History(cc *run.Case, kind string, nops, hidx int) bool {
 	}
 	defer cleanup()
 	model := newRepoModel()
-	names := []string{"aapl", "brk-b", "x", "goog"}[:r.Range(3, 4)]
+	// names incl. ones that end in the letters of the ".csv" suffix and contain dots
+	pool := []string{"aapl", "brk-b", "x", "goog", "vics", "cvs", "msft.v", "s", "abc.csv"}
+	perm := r.Perm(len(pool))
+	names := make([]string, 0, 4)
+	for _, i := range perm[:r.Range(3, 4)] {
+		names = append(names, pool[i])
+	}
 	lastDay := map[string]int{}
 	var hist []repoOp
 	fail := func(msg string) bool {
